@@ -64,17 +64,22 @@ func runKV(c kvCase) (Outcome, map[string]interface{}) {
 			return Outcome{Ret: out}
 		case "PathForKeyShortest":
 			return Outcome{Ret: mv.PathForKeyShortest(c.Key)}
-		case "LeafNodes":
+		case "LeafNodes", "LeafPaths", "LeafValues":
 			mxj.SetAttrPrefix(c.Prefix)
 			mxj.LeafUseDotNotation(c.DotN)
 			defer mxj.SetAttrPrefix("-")
 			defer mxj.LeafUseDotNotation(false)
-			var ln []mxj.LeafNode
+			var opt []bool
 			if c.NoAttr {
-				ln = mv.LeafNodes(true)
-			} else {
-				ln = mv.LeafNodes()
+				opt = []bool{true}
 			}
+			switch c.Op {
+			case "LeafPaths":
+				return Outcome{Ret: toIfaces(mv.LeafPaths(opt...))}
+			case "LeafValues":
+				return Outcome{Ret: ifaceList(mv.LeafValues(opt...))}
+			}
+			ln := mv.LeafNodes(opt...)
 			out := make([]interface{}, len(ln))
 			for i, n := range ln {
 				out[i] = []interface{}{n.Path, n.Value}
@@ -96,7 +101,7 @@ func runKV(c kvCase) (Outcome, map[string]interface{}) {
 		}
 		panic("mxjh: unknown op " + c.Op)
 	})
-	return o, m
+	return o, deepCopy(m).(map[string]interface{})
 }
 
 func coqNewVal(v interface{}) string {
@@ -124,6 +129,10 @@ func (c kvCase) opTerm() string {
 		return "(OpPaths " + coqStr(c.Key) + ")"
 	case "PathForKeyShortest":
 		return "(OpShortest " + coqStr(c.Key) + ")"
+	case "LeafPaths":
+		return "(OpLeafPaths " + coqBool(c.NoAttr) + " " + coqStr(c.Prefix) + " " + coqStr("#text") + " " + coqBool(c.DotN) + ")"
+	case "LeafValues":
+		return "(OpLeafValues " + coqBool(c.NoAttr) + " " + coqStr(c.Prefix) + " " + coqStr("#text") + " " + coqBool(c.DotN) + ")"
 	case "LeafNodes":
 		return "(OpLeaf " + coqBool(c.NoAttr) + " " + coqStr(c.Prefix) + " " + coqStr("#text") + " " + coqBool(c.DotN) + ")"
 	case "UpdateValuesForPath":
@@ -335,3 +344,5 @@ func hasIndexOnStar(keys []specKey) bool {
 	}
 	return false
 }
+
+func runKVLeaf(c kvCase) (Outcome, map[string]interface{}) { return runKV(c) }
